@@ -87,9 +87,12 @@ def rule_c06_shapley(prog: Program, col: Collector) -> None:
     wp = wref.positional_params()
     single, game, coefs, nfac = (("param", x) for x in wp[:4])
     rets = list(wft.of_kind("return"))
-    if len(rets) != 1:
-        raise AnalysisError("_shapley_value_for_player: expected a single return")
-    rv = rets[0].value
+    if not rets:
+        raise AnalysisError("_shapley_value_for_player: no return")
+    for r in rets[:-1]:
+        col.check(False, wref.where(r.node), wref.short, f"the Shapley value is the one weighted sum (extra return of {short(r.value, 50)})", construct="shapley-extra-return",
+                  necessity="a shortcut return changes the value for the inputs that take it; the definition holds for every game", rule="S5")
+    rv = rets[-1].value
     if not (rv[0] == "bin" and rv[1] == "/" and rv[3] == nfac):
         col.check(False, wref.where(), wref.short, "the weighted sum is divided by n! (the n_fac argument)", construct="divide-nfac",
                   necessity="the Shapley value is the AVERAGE over n! orderings", rule="S5")
@@ -102,6 +105,18 @@ def rule_c06_shapley(prog: Program, col: Collector) -> None:
     inner = total[2][0]
     lam = None
     zargs = None
+    # terms must not be dropped from the sum: filter(...) / slicing of the zipped terms
+    if is_call_to(inner, "itertools.starmap") and len(inner[2]) == 2 and (is_call_to(inner[2][1], "filter") or
+                                                                         (inner[2][1][0] == "index" and inner[2][1][2][0] == "slice")):
+        col.check(False, wref.where(), wref.short, "every coalition without the player contributes a term (the zipped terms are filtered / sliced)",
+                  construct="summand-filter", necessity="dropping a term (e.g. those whose value with the player is 0) loses its -v(S) part: the sum is no longer the average marginal contribution",
+                  rule="S6")
+        src2 = inner[2][1]
+        src2 = src2[2][1] if is_call_to(src2, "filter") and len(src2[2]) == 2 else src2[1]
+        inner = ("call", inner[1], (inner[2][0], src2), inner[3])
+    if inner[0] == "comp" and len(inner[3]) == 1 and inner[3][0][2] and is_call_to(inner[3][0][1], "zip"):
+        col.check(False, wref.where(), wref.short, "every coalition without the player contributes a term (the comprehension filters the terms)",
+                  construct="summand-filter", necessity="dropping a term loses its contribution", rule="S6")
     if is_call_to(inner, "itertools.starmap") and len(inner[2]) == 2 and inner[2][0][0] == "lambda" and is_call_to(inner[2][1], "zip"):
         lam, zargs = inner[2][0], inner[2][1][2]
         params = lam[1]
@@ -319,9 +334,13 @@ def rule_c05_exploitability(prog: Program, col: Collector) -> None:
     ft = fterms(prog, ref)
     gp = ("param", ref.positional_params()[0])
     rets = list(ft.of_kind("return"))
-    if len(rets) != 1:
-        raise AnalysisError("compute_exploitability: expected a single return")
-    rv = rets[0].value
+    if not rets:
+        raise AnalysisError("compute_exploitability: no return")
+    for r in rets[:-1]:
+        col.check(False, ref.where(r.node), ref.short, f"exploitability is the one formula for every game (extra return of {short(r.value, 40)})", construct="exploitability-shortcut",
+                  necessity="a shortcut (e.g. 'return 0 when the bounds are close') reports 0 for games whose intervals are small but not degenerate: "
+                            "exploitability is zero EXACTLY when every interval is degenerate")
+    rv = rets[-1].value
     grand = ("call", ("attr", gp, "get_value"), (("call", ("global", P + "coalitions.grand_coalition"), (gp,), ()),), ())
     col.check(rv[0] == "bin" and rv[1] == "-" and rv[3] == grand, ref.where(), ref.short, "... minus game.get_value(grand_coalition(game))",
               construct="minus-grand", necessity="exploitability is the summed best-case gain RELATIVE to the grand coalition's value")
